@@ -22,6 +22,7 @@ def build(asm, tier):
     asm.file('spec/logenc_spec.rs')
     asm.file('spec/c12_spec.rs')
     asm.file('spec/constraint_multiset.rs')
+    asm.file('spec/box_spec.rs')
     asm.file('spec/slack_spec.rs')
     bu = {u.name: u for u in bound.units()}
     for n in ('BoundError::check', 'Bound::new', 'Default for Bound', 'Bound::lower', 'Bound::upper', 'Bound::width'):
